@@ -198,9 +198,9 @@ maximal order is not touched by `raise_order(0)`).
 
 `_partial`: the three remaining steps enter as NAMED hypotheses, each quantified only over the call
 that is actually made, each in the form `SameMapOn m i · ·` (same domain in direction `i`, same map on it):
-* `H_lower₁/₂` — `lower_periodic` keeps the evaluated map (property C08: `C08_lower_periodic_partial`,
-  lifted to the tensor-product sum in `C12.lowerPeriodic_sameMapOn` and discharged in
-  `C12_periodic_direction_partial` under the guard `n ≥ p + k`; false in the pinned code below it);
+* `H_lower₁/₂` — `lower_periodic` keeps the evaluated map (property C08: `C08_lower_periodic`, any valid
+  periodic direction, lifted to the tensor-product sum in `C12.lowerPeriodic_sameMapOn` and discharged in
+  `C12_periodic_direction_partial` and `C12_periodic_pair_partial`);
 * `H_raise₁/₂` — `raise_order(amount > 0)` keeps the evaluated map (property C05; proved in full
   for clamped bases in ONE parametric direction and discharged for curves in `C12_open_curves_partial`
   (`C12.raise_to_common`); open for periodic bases and for pardim 2–3, where `raise_order`
@@ -209,8 +209,9 @@ that is actually made, each in the form `SameMapOn m i · ·` (same domain in di
   for every fibre of a non-periodic direction; the identification of the fibre splines with the
   tensor-product sum `C06.TP.eval` is `C12.toTP_eval_fibre`, so for a NON-periodic direction this
   hypothesis is discharged for any pardim — `C12.insertKnots_sameMap`, used in `C12_open_curves_partial` and
-  `C12_open_direction_partial` —; periodic insertion is `C04_periodic_partial`, lifted under the guard
-  `n ≥ p + k` in `C12.insertKnots_sameMapOn_periodic` and used in `C12_periodic_pair_partial`).
+  `C12_open_direction_partial` —; periodic insertion (direct algorithm or cover branch, any number of
+  functions: `C04.insertKnots_fibres_periodic_all`) is lifted in `C12.insertKnots_sameMapOn_periodic` and
+  used in `C12_periodic_pair_partial`).
 So the theorem is complete exactly when periodicities and orders already agree and nothing has to be
 inserted, and otherwise partial to the extent C08 / C05 / C04 are.  The correspondence run decides
 all six hypotheses in exact rational arithmetic for every generated pair (`same1`, `same2`). -/
@@ -621,9 +622,8 @@ theorem C12_open_volumes_all_directions_partial (tol : K) (htol : 0 < tol) (o1 o
 
 /-- **A direction that is periodic in one object and open in the other — `lower_periodic` without
 hypothesis** (any pardim `m`, direction `i`; object 1 open, object 2 periodic of continuity `k ≥ 0` in
-direction `i`; the other directions arbitrary).  Object 2 satisfies the guard of periodic knot
-insertion, `n ≥ p + k` functions, and has its declared seam multiplicity (`hseam`) — below the guard the
-pinned code is wrong (known finding).  Knot-vector hypotheses: the normalised basis of object 1 and the
+direction `i`, ANY valid periodic basis: no lower bound on the number of functions, no assumption on the
+seam multiplicity; the other directions arbitrary).  Knot-vector hypotheses: the normalised basis of object 1 and the
 basis `lower_periodic(-1)` gives the re-parametrised object 2 (order `p₂`, non-periodic) are in
 common-entry form over `L` (`hb1`, `hb2`: statements about knot vectors only, decidable for concrete
 data).  Conclusion: `make_splines_identical(direction=i)` succeeds: `lower_periodic` opens object 2 at
@@ -640,7 +640,8 @@ lower order (`H_raise₁/₂`; theorems for curves / surfaces / volumes: `C12.ra
 `raisesTo_surface`, `raisesTo_volume` — `C12_periodic_curves_partial` below has none left); (ii) only
 the case "lowered to non-periodic": two periodic partners of different continuity end periodic, and the
 insertion passes are then periodic insertions — see `C12_periodic_pair_partial` (equal orders; success and
-geometry, not the equality of the knot vectors); (iii) the guard `n ≥ p + k` and `hseam`. -/
+geometry, not the equality of the knot vectors); (iii) the opened basis of object 2 is not computed from
+its input: `hb2` is a hypothesis. -/
 theorem C12_periodic_direction_partial {m : ℕ} (tol : K) (htol : 0 < tol) (c1 c2 : Bool) (p1 p2 : ℕ)
     (hp1 : 2 ≤ p1) (hp2 : 2 ≤ p2) (x0 xl : K) (L : List (K × ℕ × ℕ))
     (hsep : Separated tol (clampedU x0 xl (L.map (·.1)))) (i : Fin m) (hi : (i : ℕ) ≤ 2)
@@ -648,8 +649,6 @@ theorem C12_periodic_direction_partial {m : ℕ} (tol : K) (htol : 0 < tol) (c1 
     (hb1 : C06.reparamOk (s.1.basis i) 0 1
       = openBasis p1 (clampedU x0 xl (L.map (·.1))) (clampedM p1 (L.map (·.2.1))))
     (k : ℕ) (hk : (s.2.basis i).periodic = (k : Int))
-    (hguard : (s.2.basis i).order + k ≤ (s.2.basis i).numFunctions)
-    (hseam : (s.2.basis i).start < (s.2.basis i).kn (s.2.basis i).order)
     (hb2 : ∀ o2, (C06.reparamObj s.2 i 0 1).lowerPeriodic (-1) i = .ok o2 →
       o2.basis i = openBasis p2 (clampedU x0 xl (L.map (·.1))) (clampedM p2 (L.map (·.2.2))))
     (H_raise₁ : p1 < max p1 p2 →
@@ -665,33 +664,18 @@ theorem C12_periodic_direction_partial {m : ℕ} (tol : K) (htol : 0 < tol) (c1 
       ∧ Rescaled m i (s.1.basis i).start (s.1.basis i).stop s.1 r.1
       ∧ RescaledOn m i (s.2.basis i).start (s.2.basis i).stop s.2 r.2
       ∧ C06.WF r.1 m ∧ C06.WF r.2 m := by
-  have hv := hw2.valid i
   have hbb : (C06.reparamObj s.2 i 0 1).basis i = C06.reparamOk (s.2.basis i) 0 1 := reparamObj_basis hw2 i
-  have hseam' : (C06.reparamOk (s.2.basis i) 0 1).start
-      < (C06.reparamOk (s.2.basis i) 0 1).kn (C06.reparamOk (s.2.basis i) 0 1).order := by
-    rw [C06.reparamOk_start hv, C06.reparamOk_order, C06.reparamOk_kn _ (C06.valid_size_pos hv)]
-    have hpos : 0 < (s.2.basis i).stop - (s.2.basis i).start := sub_pos.mpr hv.start_lt_stop
-    have : 0 < ((s.2.basis i).kn (s.2.basis i).order - (s.2.basis i).start) * (1 - 0)
-        / ((s.2.basis i).stop - (s.2.basis i).start) := by
-      apply div_pos _ hpos
-      have := sub_pos.mpr hseam
-      linarith
-    linarith
   exact core_periodic_direction tol htol c1 c2 p1 p2 hp1 hp2 x0 xl L hsep i hi s _ hw1 hw2
     (stageReparam_succeeds hw1 hw2 i hi) ((reparamObj_basis hw1 i).trans hb1) k
     (by show ((C06.reparamObj s.2 i 0 1).basis i).periodic = _; rw [hbb]; exact hk)
-    (by show ((C06.reparamObj s.2 i 0 1).basis i).order + k ≤ ((C06.reparamObj s.2 i 0 1).basis i).numFunctions
-        rw [hbb, C06.reparamOk_numFunctions]; exact hguard)
-    (by show ((C06.reparamObj s.2 i 0 1).basis i).start
-          < ((C06.reparamObj s.2 i 0 1).basis i).kn ((C06.reparamObj s.2 i 0 1).basis i).order
-        rw [hbb]; exact hseam')
     hb2 H_raise₁ H_raise₂
 
 /-- **A periodic curve against an open curve, any orders — no hypothesis on the geometry of any called
 method.**  `C12_periodic_direction_partial` for `m = 1` with `RaisesTo` discharged by C05
 (`C12.raisesTo_curve`: continuity `m_j ≤ p_j - 1`, distinct values more than `2·(p-1)·tol` apart).
-`_partial`: what remains are the guards of the previous section, the guard `n ≥ p + k` with the declared
-seam multiplicity, and the knot-vector statement `hb2` about the opened basis. -/
+Any valid periodic basis for object 2 (no guard on the number of functions, no seam hypothesis).
+`_partial`: what remains are the guards of the previous section (clamped continuous open partner, common
+entry list, separation) and the knot-vector statement `hb2` about the opened basis. -/
 theorem C12_periodic_curves_partial (tol : K) (htol : 0 < tol) (c1 c2 : Bool) (p1 p2 : ℕ)
     (hp1 : 2 ≤ p1) (hp2 : 2 ≤ p2) (x0 xl : K) (L : List (K × ℕ × ℕ))
     (hm : ∀ e ∈ L, e.2.1 ≤ p1 - 1 ∧ e.2.2 ≤ p2 - 1)
@@ -700,8 +684,6 @@ theorem C12_periodic_curves_partial (tol : K) (htol : 0 < tol) (c1 c2 : Bool) (p
     (hb1 : C06.reparamOk (s.1.basis 0) 0 1
       = openBasis p1 (clampedU x0 xl (L.map (·.1))) (clampedM p1 (L.map (·.2.1))))
     (k : ℕ) (hk : (s.2.basis 0).periodic = (k : Int))
-    (hguard : (s.2.basis 0).order + k ≤ (s.2.basis 0).numFunctions)
-    (hseam : (s.2.basis 0).start < (s.2.basis 0).kn (s.2.basis 0).order)
     (hb2 : ∀ o2, (C06.reparamObj s.2 0 0 1).lowerPeriodic (-1) 0 = .ok o2 →
       o2.basis 0 = openBasis p2 (clampedU x0 xl (L.map (·.1))) (clampedM p2 (L.map (·.2.2)))) :
     ∃ r, identicalDir tol c1 c2 s 0 = .ok r
@@ -720,25 +702,12 @@ theorem C12_periodic_curves_partial (tol : K) (htol : 0 < tol) (c1 c2 : Bool) (p
   have hwa2 := (C06.wf_reparamObj hw2 (0 : Fin 1) (zero_lt_one : (0 : K) < 1)).1
   have hbb : (C06.reparamObj s.2 0 0 1).basis 0 = C06.reparamOk (s.2.basis 0) 0 1 := reparamObj_basis hw2 (0 : Fin 1)
   obtain ⟨r, h1, h2, h3, _, h5, h6, _, _⟩ := C12_periodic_direction_partial (m := 1) tol htol c1 c2 p1 p2 hp1 hp2
-    x0 xl L (separated_mono hfac hgap) 0 (by decide) s hw1 hw2 hb1 k hk hguard hseam hb2
+    x0 xl L (separated_mono hfac hgap) 0 (by decide) s hw1 hw2 hb1 k hk hb2
     (fun _ => raisesTo_curve tol htol p1 (max p1 p2) hp1 (le_max_left _ _) x0 xl L (·.1) (·.2.1)
       (fun e he => (hm e he).1) hgap _ hwa1 ((reparamObj_basis hw1 (0 : Fin 1)).trans hb1) c1)
     (fun _ o2 hl => by
-      have hv : (s.2.basis 0).Valid := hw2.valid (0 : Fin 1)
       obtain ⟨o2', hl', hwo2, _⟩ := lowerPeriodic_sameMapOn hwa2 (0 : Fin 1) k
         (by show ((C06.reparamObj s.2 0 0 1).basis 0).periodic = _; rw [hbb]; exact hk)
-        (by show ((C06.reparamObj s.2 0 0 1).basis 0).order + k ≤ ((C06.reparamObj s.2 0 0 1).basis 0).numFunctions
-            rw [hbb, C06.reparamOk_numFunctions]; exact hguard)
-        (by show ((C06.reparamObj s.2 0 0 1).basis 0).start
-              < ((C06.reparamObj s.2 0 0 1).basis 0).kn ((C06.reparamObj s.2 0 0 1).basis 0).order
-            rw [hbb, C06.reparamOk_start hv, C06.reparamOk_order, C06.reparamOk_kn _ (C06.valid_size_pos hv)]
-            have hpos : 0 < (s.2.basis 0).stop - (s.2.basis 0).start := sub_pos.mpr hv.start_lt_stop
-            have : 0 < ((s.2.basis 0).kn (s.2.basis 0).order - (s.2.basis 0).start) * (1 - 0)
-                / ((s.2.basis 0).stop - (s.2.basis 0).start) := by
-              apply div_pos _ hpos
-              have := sub_pos.mpr hseam
-              linarith
-            linarith)
         (-1) (le_refl _) (by omega)
       have : o2' = o2 := by rw [hl'] at hl; injection hl
       subst this
@@ -748,30 +717,26 @@ theorem C12_periodic_curves_partial (tol : K) (htol : 0 < tol) (c1 c2 : Bool) (p
 
 /-- **Two PERIODIC partners of different continuity, equal orders — no hypothesis on any called method.**
 Any pardim `m`, direction `i`; in direction `i` object `j` is periodic with continuity `k_j ≥ 0`,
-`k₁ ≠ k₂`, both of the same order; both satisfy the guard of periodic knot insertion and of
-`lower_periodic`, `n_j ≥ p + k_j`; the object of HIGHER continuity (the one that is lowered) has the
-declared seam multiplicity (`start < t[p]`); the other directions are arbitrary.  Then
+`k₁ ≠ k₂`, both of the same order — ANY valid periodic bases: no lower bound on the number of functions
+(below `p + k` functions `insert_knot` and `lower_periodic` work on the cover of the basis), no assumption
+on the seam multiplicity; the other directions are arbitrary.  Then
 `make_splines_identical(direction=i)` SUCCEEDS — `reparam` (C06), `lower_periodic` of the smoother object
 down to `min k₁ k₂` (C08), `raise_order(0)` (nothing), the two passes of PERIODIC `insert_knot` with
-whatever values the `continuity` comparisons produce (C04, periodic branch; `continuity` never raises on a
-periodic basis) — and
+whatever values the `continuity` comparisons produce (C04, periodic branch, direct or cover; `continuity`
+never raises on a periodic basis) — and
 * each object is the exact rescaling of its input for all parameters of its domain `[start_i, end_i]`
   (`RescaledOn`: every homogeneous component, every side; a periodic object evaluated outside is wrapped
   into the domain first, property C08);
 * both end periodic with continuity `min k₁ k₂` and the common order, are well formed, and the bases of
   the other directions are unchanged.
-`_partial`: equal orders only (`raise_order` of a periodic basis is not covered by C05); the guards
-`n_j ≥ p + k_j` and the seam condition; and the statement does NOT say that the two resulting knot
+`_partial`: equal orders only (`raise_order` of a periodic basis is not covered by C05); and the statement
+does NOT say that the two resulting knot
 vectors are equal (the periodic analogue of `C12_knot_merge_partial` is not proved; the correspondence
 run and the oracle check it on every generated pair). -/
 theorem C12_periodic_pair_partial {m : ℕ} (tol : K) (c1 c2 : Bool) (i : Fin m) (hi : (i : ℕ) ≤ 2)
     (s : Obj K × Obj K) (hw1 : C06.WF s.1 m) (hw2 : C06.WF s.2 m) (k1 k2 : ℕ)
     (hk1 : (s.1.basis i).periodic = (k1 : Int)) (hk2 : (s.2.basis i).periodic = (k2 : Int)) (hne : k1 ≠ k2)
-    (hord : (s.1.basis i).order = (s.2.basis i).order)
-    (hg1 : (s.1.basis i).order + k1 ≤ (s.1.basis i).numFunctions)
-    (hg2 : (s.2.basis i).order + k2 ≤ (s.2.basis i).numFunctions)
-    (hseam1 : k2 < k1 → (s.1.basis i).start < (s.1.basis i).kn (s.1.basis i).order)
-    (hseam2 : k1 < k2 → (s.2.basis i).start < (s.2.basis i).kn (s.2.basis i).order) :
+    (hord : (s.1.basis i).order = (s.2.basis i).order) :
     ∃ r, identicalDir tol c1 c2 s i = .ok r
       ∧ RescaledOn m i (s.1.basis i).start (s.1.basis i).stop s.1 r.1
       ∧ RescaledOn m i (s.2.basis i).start (s.2.basis i).stop s.2 r.2
@@ -779,7 +744,7 @@ theorem C12_periodic_pair_partial {m : ℕ} (tol : K) (c1 c2 : Bool) (i : Fin m)
       ∧ (r.1.basis i).periodic = ((min k1 k2 : ℕ) : Int) ∧ (r.2.basis i).periodic = ((min k1 k2 : ℕ) : Int)
       ∧ (r.1.basis i).order = (s.1.basis i).order ∧ (r.2.basis i).order = (s.1.basis i).order
       ∧ (∀ j : Fin m, j ≠ i → r.1.basis j = s.1.basis j ∧ r.2.basis j = s.2.basis j) :=
-  core_periodic_pair tol c1 c2 i hi s hw1 hw2 k1 k2 hk1 hk2 hne hord hg1 hg2 hseam1 hseam2
+  core_periodic_pair tol c1 c2 i hi s hw1 hw2 k1 k2 hk1 hk2 hne hord
 
 /-! ## Directions -/
 
@@ -1080,7 +1045,7 @@ example : ∃ r, identicalDir exTol true true (exSeg, exPer) 0 = .ok r
     ∧ (r.1.basis 0).knots = #[0, 0, 1/2, 1, 1] ∧ r.2.basis 0 = r.1.basis 0
     ∧ Rescaled 1 0 (exSeg.basis 0).start (exSeg.basis 0).stop exSeg r.1
     ∧ RescaledOn 1 0 (exPer.basis 0).start (exPer.basis 0).stop exPer r.2 := by
-  obtain ⟨hb1, hlow, hk, hguard, hseam⟩ := exPer_norm
+  obtain ⟨hb1, hlow, hk, _, _⟩ := exPer_norm
   have htol : (0 : ℚ) < exTol := by norm_num [exTol]
   have hgap : Separated (2 * ((max 2 2 - 1 : ℕ) : ℚ) * exTol)
       (clampedU (0 : ℚ) 1 ([((1 : ℚ)/2, 0, 1)].map (·.1))) := by
@@ -1092,21 +1057,71 @@ example : ∃ r, identicalDir exTol true true (exSeg, exPer) 0 = .ok r
     rw [h] at hlow
     simpa using hlow
   obtain ⟨r, h1, h2, h3, h4, h5⟩ := C12_periodic_curves_partial exTol htol true true 2 2 (by norm_num) (by norm_num)
-    0 1 [((1 : ℚ)/2, 0, 1)] (by simp) hgap (exSeg, exPer) exSeg_wf exPer_wf hb1 0 hk hguard hseam hb2
+    0 1 [((1 : ℚ)/2, 0, 1)] (by simp) hgap (exSeg, exPer) exSeg_wf exPer_wf hb1 0 hk hb2
   refine ⟨r, h1, ?_, h3, h4, h5⟩
   rw [h2]; decide +kernel
 
-/-- `C12_periodic_pair_partial` on a `C^0`-periodic quadratic curve on `[0,3]` (`n = 4 ≥ 3 + 0`) and a
-    `C^1`-periodic quadratic curve on `[0,4]` (`n = 4 ≥ 3 + 1`, simple seam knot): the call succeeds, both
-    end `C^0`-periodic of order 3 and are exact rescalings of their inputs on their domains. -/
+/-- `C12_periodic_curves_partial` BELOW `p + k` functions: an open quadratic segment against a
+    `C^1`-periodic quadratic curve with `n = 3 < p + k = 4` functions (knots `-2,…,5`, domain `[0,3]`):
+    `lower_periodic` (cover branch of the periodic insertion) opens it to `0,0,0,1/3,2/3,1,1,1`, both end on
+    that knot vector — the theorem's union basis agrees with the kernel evaluation of the whole model run —,
+    the segment is an exact rescaling for all parameters and the periodic curve on its domain. -/
+example : (exPPC.basis 0).numFunctions < (exPPC.basis 0).order + 1 ∧
+    ∃ r, identicalDir exTol true true (exSeg3, exPPC) 0 = .ok r
+    ∧ (r.1.basis 0).knots = #[0, 0, 0, 1/3, 2/3, 1, 1, 1] ∧ r.2.basis 0 = r.1.basis 0
+    ∧ Rescaled 1 0 (exSeg3.basis 0).start (exSeg3.basis 0).stop exSeg3 r.1
+    ∧ RescaledOn 1 0 (exPPC.basis 0).start (exPPC.basis 0).stop exPPC r.2 := by
+  obtain ⟨hn, hk, hb1, hlow, hrun, _⟩ := exPPC_norm
+  refine ⟨hn, ?_⟩
+  have htol : (0 : ℚ) < exTol := by norm_num [exTol]
+  have hgap : Separated (2 * ((max 3 3 - 1 : ℕ) : ℚ) * exTol)
+      (clampedU (0 : ℚ) 1 ([((1 : ℚ)/3, 0, 1), (2/3, 0, 1)].map (·.1))) := by
+    simp [Separated, clampedU, exTol]; norm_num
+  have hb2 : ∀ o2, (C06.reparamObj exPPC 0 0 1).lowerPeriodic (-1) 0 = .ok o2 →
+      o2.basis 0 = openBasis 3 (clampedU (0 : ℚ) 1 ([((1 : ℚ)/3, 0, 1), (2/3, 0, 1)].map (·.1)))
+        (clampedM 3 ([((1 : ℚ)/3, 0, 1), (2/3, 0, 1)].map (·.2.2))) := by
+    intro o2 h
+    rw [h] at hlow
+    simpa using hlow
+  obtain ⟨r, h1, _, _, h4, h5⟩ := C12_periodic_curves_partial exTol htol true true 3 3 (by norm_num) (by norm_num)
+    0 1 [((1 : ℚ)/3, 0, 1), (2/3, 0, 1)]
+    (by intro e he; simp only [List.mem_cons, List.not_mem_nil, or_false] at he
+        rcases he with rfl | rfl <;> decide)
+    hgap (exSeg3, exPPC) exSeg3_wf exPPC_wf hb1 1 hk hb2
+  rw [h1] at hrun
+  have hrun' := of_decide_eq_true hrun
+  exact ⟨r, h1, hrun'.1, hrun'.2, h4, h5⟩
+
+/-- `C12_periodic_pair_partial` on a `C^0`-periodic quadratic curve on `[0,3]` (`n = 4`) and a
+    `C^1`-periodic quadratic curve on `[0,4]` (`n = 4`): the call succeeds, both end `C^0`-periodic of
+    order 3 and are exact rescalings of their inputs on their domains. -/
 example : ∃ r, identicalDir exTol true true (exPPA, exPPB) 0 = .ok r
     ∧ RescaledOn 1 0 (exPPA.basis 0).start (exPPA.basis 0).stop exPPA r.1
     ∧ RescaledOn 1 0 (exPPB.basis 0).start (exPPB.basis 0).stop exPPB r.2
     ∧ (r.1.basis 0).periodic = 0 ∧ (r.2.basis 0).periodic = 0 := by
   obtain ⟨r, h1, h2, h3, _, _, h6, h7, _⟩ := C12_periodic_pair_partial (m := 1) exTol true true 0 (by decide)
-    (exPPA, exPPB) exPPA_wf exPPB_wf 0 1 (by decide) (by decide) (by decide) (by decide) (by decide) (by decide)
-    (fun h => absurd h (by decide)) (fun _ => by decide +kernel)
+    (exPPA, exPPB) exPPA_wf exPPB_wf 0 1 (by decide) (by decide) (by decide) (by decide)
   exact ⟨r, h1, h2, h3, h6, h7⟩
+
+/-- `C12_periodic_pair_partial` BELOW `p + k` functions: the `C^0`-periodic quadratic curve (`n = 4`) against
+    the `C^1`-periodic quadratic curve with `n = 3 < p + k = 4` functions: the call succeeds (cover branch in
+    `lower_periodic` and in the periodic insertions), both end `C^0`-periodic and are exact rescalings on
+    their domains; the kernel evaluation of the whole model run adds that both end with the SAME knot vector
+    `-1/3,0,0,1/3,2/3,1,1,4/3` (the part the theorem does not state). -/
+example : (exPPC.basis 0).numFunctions < (exPPC.basis 0).order + 1 ∧
+    ∃ r, identicalDir exTol true true (exPPA, exPPC) 0 = .ok r
+    ∧ RescaledOn 1 0 (exPPA.basis 0).start (exPPA.basis 0).stop exPPA r.1
+    ∧ RescaledOn 1 0 (exPPC.basis 0).start (exPPC.basis 0).stop exPPC r.2
+    ∧ (r.1.basis 0).periodic = 0 ∧ (r.2.basis 0).periodic = 0
+    ∧ (r.1.basis 0).knots = #[-1/3, 0, 0, 1/3, 2/3, 1, 1, 4/3] ∧ r.2.basis 0 = r.1.basis 0 := by
+  obtain ⟨hn, _, _, _, _, hrun⟩ := exPPC_norm
+  refine ⟨hn, ?_⟩
+  obtain ⟨r, h1, h2, h3, _, _, h6, h7, _⟩ := C12_periodic_pair_partial (m := 1) exTol true true 0 (by decide)
+    (exPPA, exPPC) exPPA_wf exPPC_wf 0 1 (by decide) (by decide) (by decide) (by decide)
+  have h1' : identicalDir exTol true true (exPPA, exPPC) 0 = .ok r := h1
+  rw [h1'] at hrun
+  have hrun' := of_decide_eq_true hrun
+  exact ⟨r, h1, h2, h3, h6, h7, hrun'.1, hrun'.2⟩
 
 /-- `C12_directions`: for these curves the explicit directions `0`, `'u'`, `'U'` are the same call,
     `'v'` is a `ValueError`, and `direction=None` is the one-step loop. -/
